@@ -50,6 +50,8 @@ type Config struct {
 	IdentMode string `json:"ident_mode"`
 	// Bubble runs the world inside a synctest bubble with the goroutine
 	// scheduler seam active; GoMode: "fifo" (spawn order), "lifo", "random", "mix".
+	// EnvMode: "" / "pinned" (real environment) or "vary".
+	EnvMode string `json:"env_mode,omitempty"`
 	Bubble bool   `json:"bubble,omitempty"`
 	GoMode string `json:"go_mode,omitempty"`
 	// Replay, when non-nil, replaces the PRNG: decision i is Replay[i].Chosen
@@ -79,6 +81,7 @@ type Op struct {
 	Op      string `json:"op"`
 	Path    string `json:"path"`
 	Path2   string `json:"path2,omitempty"`
+	Real    string `json:"real,omitempty"` // Path with symlinks resolved on its deepest existing ancestor
 	Write   bool   `json:"write"`             // write-class operation
 	Flags   int    `json:"flags,omitempty"`
 	Escaped bool   `json:"escaped,omitempty"` // write-class op outside the sandbox (refused)
